@@ -22,7 +22,8 @@ RULE = ("battery class (ideal / two-stage continuous / two-stage stepwise) x noi
         "reassigned after construction); non-trivial = distinct (battery, operation list); a case is cut before the "
         "first operation whose `soc < transition_soc` test (stepwise + noise: the only discontinuous decision) is "
         "within 1e-9 of flipping, and skipped as ambiguous if that is the first operation; ~10% of the operations are JSON "
-        "round trips of the object, 20% of the cases use numpy / int / float argument types, ~6% are pairs of live objects "
+        "round trips or deep copies (of the battery, of an EV holding it, of a list of EVs) of the object, 10% of the cases run "
+        "on a deep copy from the start, ideal batteries also with max_power exactly 0 / 0.0 / 1e-3, 20% of the cases use numpy / int / float argument types, ~6% are pairs of live objects "
         "differing in one constructor argument and driven alternately, boundaries also at +-1 ulp, periods incl. 7, 9, 13, "
         "45, 90, 0.7, 2.5 min; stream `sim`: real Simulator runs "
         "(1-3 stations with EVSE / DeadbandEVSE / FiniteRatesEVSE incl. the AeroVironment and ClipperCreek rate tables, the "
@@ -52,6 +53,8 @@ def rand_spec(rng, kind=None):
     cap = rng.choice(CAPS) if rng.random() < 0.8 else round(rng.uniform(5, 120), 3)
     maxP = rng.choice(MAXPS) if rng.random() < 0.8 else round(rng.uniform(1, 60), 3)
     spec = dict(kind=kind, cap=cap, maxP=maxP, init=0)
+    if kind == "ideal" and rng.random() < 0.08:
+        spec["maxP"] = rng.choice([0, 0.0, 1e-3])       # a vehicle that accepts (almost) no charge: legal, rate must be 0
     if kind == "l2":
         spec["nl"] = rng.choice(NLS)
         spec["ts"] = rng.choice(TSS) if rng.random() < 0.85 else round(rng.uniform(0, 0.995), 4)
@@ -117,7 +120,10 @@ def rand_ops(rng, spec, V, T, first_pilot):
         if i > 0 and t < 0.13:
             ops.append(("json",))                      # the object is replaced by its JSON round trip mid-sequence
             continue
-        if t < 0.20:
+        if i > 0 and t < 0.17:
+            ops.append(("copy", rng.choice(["battery", "ev", "evlist"])))      # ... by a deep copy
+            continue
+        if t < 0.24:
             badV, badT = rng.choice([(0, T), (-1, T), (V, 0), (V, -5), (0, 0)])
             ops.append(("charge", pilot, badV, badT, noise_for(rng, spec)))
             continue
@@ -166,6 +172,8 @@ def one_case(rng, spec=None):
     ops = rand_ops(rng, spec, V, T, pilot)
     if rng.random() < 0.2:
         spec["dtype"] = rng.choice(DTYPES)             # same numbers as numpy scalars / python ints / floats
+    if rng.random() < 0.1 and "force_mode" not in spec:
+        spec["copy_first"] = rng.choice(["battery", "ev", "evlist"])      # the object under test is a deep copy
     return build(spec, ops)
 
 
@@ -288,6 +296,12 @@ CORPUS = [
     (dict(kind="l2", cap=50, maxP=7, init=45, nl=1, ts=0.8, mode="stepwise"), [("charge", 32, 208, 5, 100.0)]),
     (dict(kind="l2", cap=50, maxP=7, init=10, nl=1, ts=0.8, mode="stepwise"), [("charge", 32, 208, 5, 100.0)]),
     (dict(kind="ideal", cap=50, maxP=7, init=49.9, ), [("charge", 32, 208, 5, 0.0), ("charge", 32, 208, 5, 0.0)]),
+    # a battery rated exactly 0 kW accepts no charge (int and float zero)
+    (dict(kind="ideal", cap=50, maxP=0, init=10), [("charge", 32, 240, 5, 0.0), ("charge", 80, 240, 15, 0.0)]),
+    (dict(kind="ideal", cap=50, maxP=0.0, init=10), [("charge", 32, 240, 5, 0.0)]),
+    # deep copies keep every constructor option
+    (dict(kind="l2", cap=50, maxP=7, init=30, nl=1, ts=0.5, mode="stepwise", copy_first="ev"),
+     [("charge", 32, 208, 5, 0.5), ("copy", "evlist"), ("charge", 32, 208, 5, -0.5)]),
 ]
 
 
@@ -347,16 +361,20 @@ def monitor(case):
             "accepted" if must_reject else "refused (%s)" % impl["ctor_err"], init, cap, spec.get("ts"), spec.get("mode"))
     if impl["ctor_err"] is not None:
         return None if impl["ctor_err"] == "ValueError" else "constructor raised %s" % impl["ctor_err"]
-    hyp = cap > 0 and maxP > 0
+    hyp = (cap > 0 and maxP > 0) if l2 else maxP >= 0        # C03_ideal needs max_power >= 0 only
+    if impl.get("max_charging_power") is not None and impl["max_charging_power"] != maxP:
+        return "max_charging_power reports %r for a battery constructed with max_power %r" % (impl["max_charging_power"], maxP)
+    if impl.get("originals_untouched") is False:
+        return "charging a deep copy changed the battery it was copied from"
     charge, power = init, 0
     mode_ok = (not l2) or batt.mode_code(spec) in (0, 1)
     tainted = False      # a negative pilot was applied: the state may exceed capacity (outside the hypotheses)
     for k, (op, ob) in enumerate(zip(ops, impl["obs"])):
         tol = REL * max(1.0, abs(cap))
-        if op[0] == "json":
+        if op[0] in ("json", "copy"):
             if ob["err"] is not None or ob["charge"] != charge or ob["power"] != power:
-                return "op %d: JSON round trip changed the battery: %r, charge %r -> %r, power %r -> %r" % (
-                    k, ob["err"], charge, ob["charge"], power, ob["power"])
+                return "op %d: %s changed the battery: %r, charge %r -> %r, power %r -> %r" % (
+                    k, "JSON round trip" if op[0] == "json" else "deep copy", ob["err"], charge, ob["charge"], power, ob["power"])
         elif op[0] == "reset":
             x = op[1]
             if x is not None and x > cap:
